@@ -2,6 +2,8 @@
 // (Tier A): building the combinator / completing input 1 / completing input 2, one unit running to completion inside
 // another at any of its atomic operations.  Outcome kinds are per-query constants, payloads symbolic.
 #include <yaclib/async/contract.hpp>
+#include <yaclib/async/shared_contract.hpp>
+#include <yaclib/async/shared_future.hpp>
 #include <yaclib/async/future.hpp>
 #include <yaclib/async/join.hpp>
 #include <yaclib/async/make.hpp>
@@ -233,6 +235,55 @@ static void Tuple(unsigned k0, unsigned k1, unsigned order) {
 }
 extern "C" void c09_tuple_first(unsigned k0, unsigned k1, unsigned order) { Tuple<FailPolicy::FirstFail>(k0, k1, order); }
 extern "C" void c09_tuple_none(unsigned k0, unsigned k1, unsigned order) { Tuple<FailPolicy::None>(k0, k1, order); }
+
+// ---- C09: shared inputs.  The combinator may CONSUME only its own reference to an input: a SharedFuture that is given twice, or
+// is still observed elsewhere, keeps its value (the value type's move leaves a visible mark in the source).
+struct MV {
+  int v = 0;
+  MV() = default;
+  explicit MV(int x) : v{x} {}
+  MV(const MV&) = default;
+  MV& operator=(const MV&) = default;
+  MV(MV&& o) noexcept : v{o.v} { o.v = -7; }
+  MV& operator=(MV&& o) noexcept { v = o.v; o.v = -7; return *this; }
+};
+static int g_sh_out[3]; static unsigned g_sh_n, g_sh_calls;
+struct FinalShared { void operator()(Result<std::vector<MV>>&& r) noexcept {
+  ++g_sh_calls;
+  if (!r) return;
+  auto& vec = std::as_const(r).Value();
+  g_sh_n = (unsigned)vec.size();
+  for (unsigned i = 0; i < 3 && i < vec.size(); ++i) g_sh_out[i] = vec[i].v;
+} };
+extern "C" void c09_shared_inputs(unsigned form) {
+  int a = (int)vp_nondet_u32(), b = (int)vp_nondet_u32();
+  vp_assume(a != -7 && b != -7);
+  if (form == 0) {          // static form, the same shared state given twice
+    auto [sf, sp] = MakeSharedContract<MV>();
+    WhenAll(sf, sf).DetachInline(FinalShared{});
+    std::move(sp).Set(MV{a});
+    vp_assert(g_sh_calls == 1 && g_sh_n == 2 && g_sh_out[0] == a && g_sh_out[1] == a, "C09 WhenAll over shared inputs: entry i must be the value of input i (a shared input given twice)");
+    vp_assert(std::as_const(sf).Touch().Value().v == a, "C09 WhenAll consumed a shared input that is still observed elsewhere");
+  } else if (form == 1) {   // dynamic form, completion order reversed, inputs observed afterwards
+    auto [sf1, sp1] = MakeSharedContract<MV>();
+    auto [sf2, sp2] = MakeSharedContract<MV>();
+    SharedFuture<MV> in[3] = {sf1, sf2, sf1};
+    WhenAll(in, 3).DetachInline(FinalShared{});
+    std::move(sp2).Set(MV{b});
+    std::move(sp1).Set(MV{a});
+    vp_assert(g_sh_calls == 1 && g_sh_n == 3 && g_sh_out[0] == a && g_sh_out[1] == b && g_sh_out[2] == a, "C09 WhenAll over shared inputs: entry i must be the value of input i (dynamic form)");
+    vp_assert(std::as_const(sf1).Touch().Value().v == a && std::as_const(sf2).Touch().Value().v == b, "C09 WhenAll consumed a shared input that is still observed elsewhere");
+  } else {                  // mixed unique/shared static form; the shared input feeds a second WhenAll
+    auto [f, p] = MakeContract<MV>();
+    auto [sf, sp] = MakeSharedContract<MV>();
+    WhenAll(std::move(f), sf).DetachInline(FinalShared{});
+    std::move(sp).Set(MV{b});
+    std::move(p).Set(MV{a});
+    vp_assert(g_sh_calls == 1 && g_sh_n == 2 && g_sh_out[0] == a && g_sh_out[1] == b, "C09 WhenAll over mixed unique/shared inputs: entry i must be the value of input i");
+    vp_assert(std::as_const(sf).Touch().Value().v == b, "C09 WhenAll consumed a shared input that is still observed elsewhere");
+  }
+  vp_reach("c09 shared inputs");
+}
 
 // ---- three inputs, sequential completion orders (WhenAny static form): value -> failure -> value patterns need n >= 3
 template <FailPolicy P>
